@@ -65,6 +65,19 @@ def _events_for(N, n, src, rng):
         if arg != X:
             cases.append({"arg": ab.sset(X), "res": ["<argument mutated>"]})
     yield {"op": "eclose", "fa": ab.nfa(N), "cases": cases, "src": src}
+    # (T) one observed execution of the closure loop, choice by choice (hooks of gambatools/_verif.py)
+    from gambatools import _verif
+    if _verif.ON and Q:
+        q = Q[rng.randrange(len(Q))] if len(Q) > 3 else None
+        X = {q} if q else set(rng.sample(Q, rng.randint(1, len(Q))))
+        _verif.take()
+        r = epsilon_closure(N, set(X))
+        tr = _verif.take()
+        if tr and tr[0]["ev"] == "ec.start":
+            yield {"op": "ec_trace", "fa": ab.nfa(N), "start": [ab.enc(x) for x in tr[0]["start"]],
+                   "pops": [{"q": ab.enc(t["q"]), "result": [ab.enc(x) for x in t["result"]],
+                             "todo": [ab.enc(x) for x in t["todo"]]} for t in tr[1:] if t["ev"] == "ec.pop"],
+                   "res": ab.sset(r), "src": src}
     acc = [w for w in U.words_upto(N.Sigma, n) if nfa_accepts_word(N, w)]
     yield {"op": "accepts_all", "kind": "nfa", "fa": ab.nfa(N), "n": n, "accepted": ab.words(acc), "src": src}
 
@@ -124,6 +137,8 @@ RULE = ("every NFA of NFA(2,{a,b}) (exhaustive) + seeded random NFAs/DFAs with 1
 
 
 def nontrivial(e):
+    if e["op"] == "ec_trace":
+        return len(e["pops"]) >= 2
     fa = e["fa"]
     return any(t[1] == fa["eps"] for t in fa["T"]) or len(fa["Q"]) >= 2
 
